@@ -237,9 +237,9 @@ def evaluate__map_merge(self: XPathFunction, context: ta.ContextType = None) -> 
                     items.pop(k1)  # remove before to replace the key
                     items[k1] = v
                 elif duplicates == 'combine':
-                    try:
-                        items[k1].append(v)
-                    except AttributeError:
+                    if isinstance(items[k1], list):
+                        items[k1] = [*items[k1], v]  # don't modify the value of a source map
+                    else:
                         items[k1] = [items[k1], v]
                 continue
 
@@ -253,9 +253,9 @@ def evaluate__map_merge(self: XPathFunction, context: ta.ContextType = None) -> 
                         items.pop(k2)  # remove before to replace the key
                         items[k1] = v
                     elif duplicates == 'combine':
-                        try:
-                            items[k2].append(v)
-                        except AttributeError:
+                        if isinstance(items[k2], list):
+                            items[k2] = [*items[k2], v]  # don't modify the value of a source map
+                        else:
                             items[k2] = [items[k2], v]
                     break
             else:
